@@ -1,6 +1,7 @@
 import Bgpfu.Drive.Framing
 import Bgpfu.Drive.Xml
 import Bgpfu.Drive.Daemon
+import Bgpfu.Drive.Writers
 /-! `modeld`: one request per line on stdin, one answer per line on stdout.
 A line is `<op> <arg>…` separated by single spaces; unknown ops / malformed args answer `bad-op`. -/
 
@@ -10,6 +11,7 @@ def dispatch (ws : List String) : String :=
     | "frame" :: rest => Framing.drive rest
     | "xml" :: rest => Xml.drive rest
     | "daemon" :: rest => Daemon.drive rest
+    | "ser" :: rest => Writers.drive rest
     | _ => none
   r.getD "bad-op"
 
